@@ -49,3 +49,19 @@ Theorem C11_unfired_plan_irrelevant :
   one_batch Param Series LossV model lossf loss_leb rounds0 propose draws agent_actions NoFault s = (s', o).
 Proof. exact one_batch_plan_irrelevant. Qed.
 Print Assumptions C11_unfired_plan_irrelevant.
+
+(* Round 4 - several failing sessions in a row.  ANY sequence of calibrate(n_i) calls, the i-th under its own fault plan (a fault
+   at any invocation index of model / loss / sampler, or none): after every call the state is aligned (C02's invariant), the
+   history has only grown, and the scheduler is idle (stopped, no thread) - hence the next call can start its session. *)
+From BlackIt Require Import Proofs.CalibSessionsP.
+Theorem C11_any_sequence_of_failing_sessions :
+  forall Param Series LossV model lossf loss_leb rounds0 propose draws agent_actions,
+  (forall s ps ls, length (propose s ps ls) = s_bsize s) ->
+  forall E0 l s,
+    InvS Param Series LossV model lossf draws E0 s -> idle LossV (sch _ _ _ (live _ _ _ s)) ->
+    let s' := sessions Param Series LossV model lossf loss_leb rounds0 propose draws agent_actions l s in
+    InvS Param Series LossV model lossf draws E0 s' /\ idle LossV (sch _ _ _ (live _ _ _ s')) /\
+    extends _ _ _ (live _ _ _ s) (live _ _ _ s') /\
+    exists sc', start_session _ (sch _ _ _ (live _ _ _ s')) = inl sc'.
+Proof. exact sessions_full. Qed.
+Print Assumptions C11_any_sequence_of_failing_sessions.
